@@ -45,6 +45,7 @@ type Ctx struct {
 	funcsSeen   map[string]bool
 	known       []knownFinding
 	Only        string // replay: run only this rule
+	Sub         bool   // this context is run on behalf of another property's rule (no further sharing)
 }
 
 type knownFinding struct {
